@@ -53,6 +53,12 @@ func (c *Conv) Init(n *onnx.NodeProto) error {
 		switch attr.GetName() {
 		case "auto_pad":
 			c.autoPad = AutoPadSetting(attr.GetS())
+
+			switch c.autoPad {
+			case NotSet, SameUpper, SameLower, Valid:
+			default:
+				return ops.ErrInvalidAttribute(attr.GetName(), c)
+			}
 		case "dilations":
 			c.dilations, err = ops.AnyToIntSlice(attr.GetInts())
 			if err != nil {
